@@ -45,6 +45,7 @@ func vCoreTables() []vTable {
 		/* 31 */ one("/t", g("/a/b"), g("/a/{v:[a-z]+}")),
 		/* 32 */ one("/t", vRoute{method: "GET", path: "/a", produces: vAX}, vRoute{method: "POST", path: "/a", produces: vAJ}),
 		/* 33 */ one("/t", vRoute{method: "POST", path: "/a", consumes: vAJ}, vRoute{method: "GET", path: "/a", consumes: vAX}),
+		/* 34 */ one("/t", vRoute{method: "POST", path: "/a", consumes: vAJ, noCT: []string{"POST"}}, vRoute{method: "GET", path: "/a", consumes: vAJ, noCT: []string{"PUT"}}),
 	}
 }
 
